@@ -16,7 +16,7 @@ fn part(name: &'static str, quick: u64, thorough: u64, run: crate::runner::RunFn
 }
 
 fn knobs() -> Knobs {
-    Knobs { inject: false }
+    Knobs::default()
 }
 
 fn fingerprint(run: &SoloRun) -> u64 {
